@@ -263,7 +263,7 @@ func c15Judge(op, impl, model string) Verdict {
 	return v
 }
 
-var hostilePaths = []string{"", ".", "..", "a.", ".a", "a..b", "*", "*.*", "a[0]", "a[-1]", "a[", "a[]", "a[x]", "a]0[", "a[99999999999]", "a[1][2]", "[0]", "a.[0]", "*[0]", "a[0].", "a.*[1].b", "a[2147483648]", "a[+1]", "a[ 1]", "a[1", "a.b.c.d.e", "a\x00b", "é[0]", "a.*", "*.a"}
+var hostilePaths = []string{"", ".", "..", "a.", ".a", "a..b", "*", "*.*", "a[0]", "a[-1]", "a[", "a[]", "a[x]", "a]0[", "a[99999999999]", "a[1][2]", "[0]", "a.[0]", "*[0]", "a[0].", "a.*[1].b", "a[2147483648]", "a[9223372036854775807]", "a[9223372036854775806]", "a[2147483647]", "a[4294967296]", "a[18446744073709551615]", "a[0x1]", "a[+1]", "a[ 1]", "a[1", "a.b.c.d.e", "a\x00b", "é[0]", "a.*", "*.a"}
 var hostileSubs = []string{":x", "a:", ":", "", "a", "a:b:c:d", "a:b:weird", "!:x", "!", "a:*", "!a:*", "a:1:bool", "a:x:bool", "a:x:float", "::", "a::", ":a:b"}
 var hostilePairs = []string{"", ":", "a:", ":a", "a:b:c", "a:b*", "a:b[0]", "a", "a:.", "*:x", "a[-1]:x", "a[:x", ".:.", "a:b.", "*", "a.*:x.y"}
 
